@@ -5,7 +5,7 @@ import DriverOps.DataWrite
 "wo.write"  {"cfg": {"version": "1.2"|"2.0"|null, "wrap": true|false|null, "header_width": n, "fmt": text,
                      "column_fmt": [[j, fmt]..], "len_numeric_field": int|null, "lhs_spacer", "spacer", "data_width": n,
                      "data_section_header": text, "mnemonics_header": bool},
-             "obj": OBJ, "step_diff": cell|null}
+             "obj": OBJ, "step_diff": cell|null, "sss": [value, value, value] (optional: the STRT / STOP / STEP keywords)}
             -> {"lines": [..], "after": OBJ} | {"raise": "KeyError"|"IndexError"|"Other"|..} | "unmodelled"
 "wo.decision" {"obj": OBJ} -> true | false | {"raise": ..}
   OBJ   = {"version": [item..], "version_tr": bool, "well": [item..], "well_tr": bool, "curves": [item..], "params": [item..],
@@ -99,7 +99,13 @@ def handleWriteObj (op : String) (j : Json) : Except String Json := do
     let sd ← match (← fld j "step_diff") with
       | .null => pure none
       | v => do pure (some (← dwGetCell v))
-    match writeObj cfg sd o with
+    -- optional STRT / STOP / STEP keyword arguments: "sss": [value, value, value] (["none"] = not given)
+    let k ← match j.getObjVal? "sss" with
+      | .ok (.arr a) =>
+        if a.size != 3 then throw "sss: expected 3 values"
+        else pure ({ strt := ← woGetVal a[0]!, stop := ← woGetVal a[1]!, step := ← woGetVal a[2]! } : SssArgs)
+      | _ => pure ({} : SssArgs)
+    match writeObjK k cfg sd o with
     | .error e => pure (woJErr e)
     | .ok (lines, o') => pure (Json.mkObj [("lines", jlist jstr lines), ("after", woJObj o')])
   | "wo.decision" =>
